@@ -201,7 +201,7 @@ func fdArgs(f *ast.File) (string, string) {
 			return true
 		}
 		id, ok := ce.Fun.(*ast.Ident)
-		if !ok || id.Name != "newAccrualFailureDetector" || len(ce.Args) != 2 {
+		if !ok || id.Name != resolveName("pkg/gossip", "newAccrualFailureDetector") || len(ce.Args) != 2 {
 			return true
 		}
 		if be, ok := ce.Args[0].(*ast.BinaryExpr); ok && be.Op == token.MUL {
@@ -229,15 +229,21 @@ func main() {
 	b.WriteString("/-! GENERATED by /verif/harness/cmd/facts from the Go source of /repo on every run. Do not edit. -/\n")
 	b.WriteString("namespace Piko.Facts\n\n")
 
-	_, stateF := parseFile("pkg/gossip/state.go")
-	_, gossipF := parseFile("pkg/gossip/gossip.go")
-	_, protoF := parseFile("pkg/gossip/protocol.go")
-	cs := consts(stateF)
-	for k, v := range consts(gossipF) {
-		cs[k] = v
+	// package-wide (a declaration may live in any file) and by current name (resolveName bridges renames)
+	gossipFiles := pkgFiles("pkg/gossip")
+	cs := map[string]string{}
+	for _, f := range gossipFiles {
+		for k, v := range consts(f) {
+			cs[k] = v
+		}
 	}
-	for k, v := range consts(protoF) {
-		cs[k] = v
+	for _, n := range []string{"leftKey", "compactKey", "nodeExpiry", "suspicionThreshold", "compactThreshold", "messageTypeDigest",
+		"messageTypeDelta", "messageTypeJoin", "messageTypeLeave", "supportedVersion"} {
+		if r := resolveName("pkg/gossip", n); r != n {
+			if v, ok := cs[r]; ok {
+				cs[n] = v
+			}
+		}
 	}
 	b.WriteString("-- G1 constants\n")
 	fmt.Fprintf(&b, "def leftKey : Option String := %s\n", optStr(cs, "leftKey"))
@@ -250,14 +256,28 @@ func main() {
 	fmt.Fprintf(&b, "def messageTypeJoin : Option Nat := %s\n", optNat(cs, "messageTypeJoin"))
 	fmt.Fprintf(&b, "def messageTypeLeave : Option Nat := %s\n", optNat(cs, "messageTypeLeave"))
 	fmt.Fprintf(&b, "def supportedVersion : Option Nat := %s\n", optNat(cs, "supportedVersion"))
-	mul, n := fdArgs(gossipF)
+	mul, n := "none", "none"
+	for _, f := range gossipFiles {
+		if m2, n2 := fdArgs(f); m2 != "none" || n2 != "none" {
+			mul, n = m2, n2
+		}
+	}
 	fmt.Fprintf(&b, "def fdBootstrapMultiplier : Option Nat := %s\n", mul)
 	fmt.Fprintf(&b, "def fdSampleSize : Option Nat := %s\n", n)
 
 	b.WriteString("\n-- G2 wire schema (msgpack map keys in declaration order)\n")
-	tags := structTags(stateF)
-	for k, v := range structTags(protoF) {
-		tags[k] = v
+	tags := map[string][]string{}
+	for _, f := range gossipFiles {
+		for k, v := range structTags(f) {
+			tags[k] = v
+		}
+	}
+	for _, t := range []string{"Entry", "digestEntry", "digestHeader", "deltaHeader", "joinHeader", "leaveHeader"} {
+		if r := resolveName("pkg/gossip", t); r != t {
+			if v, ok := tags[r]; ok {
+				tags[t] = v
+			}
+		}
 	}
 	for _, t := range []string{"Entry", "digestEntry", "digestHeader", "deltaHeader", "joinHeader", "leaveHeader"} {
 		fmt.Fprintf(&b, "def tags_%s : Option (List String) := %s\n", t, optStrList(tags, t))
